@@ -151,6 +151,15 @@ def encode (e : Enc) (fdim mdim : String) (w : Nat) (faces : List (List Nat)) : 
     { dims := (fdim, mdim), shape := (faces.length, w), startIndex := e.startAttr,
       payload := encPayload e w faces }
 
+/-- the hypotheses under which an encoding can represent the mesh at all -/
+def Enc.Admissible (e : Enc) (w : Nat) (faces : List (List Nat)) : Prop :=
+  (e.base = 0 ∨ e.base = 1) ∧ (e.spelling = .omitted → e.base = 0) ∧
+  (∀ f ∈ faces, f.length ≤ w) ∧
+  (match e.fill with
+    | .nan => True
+    | .attr F => ∀ f ∈ faces, ∀ v ∈ f, (v : Int) + e.base ≠ F   -- the fill value is not a stored index
+    | .none => ∀ f ∈ faces, f.length = w)                        -- no fill needed: every face is full width
+
 /-! ## `_face_and_node_pair_iter` -/
 
 abbrev Pair := Int × Int
@@ -225,6 +234,10 @@ def accumulate {α} (n : Nat) (events : List (Nat × α)) : List (List α) :=
 def edgeFaceEvents (fe : List (List Int)) : List (Int × Nat) :=
   fe.zipIdx.flatMap fun (row, fi) => row.map fun k => (k, fi)
 
+/-- the faces whose face-edge row contains edge `k`, in visiting order, once per occurrence -/
+def incidences (fe : List (List Int)) (k : Int) : List Nat :=
+  ((edgeFaceEvents fe).filter (fun ev => ev.1 == k)).map (·.2)
+
 def inRange (n : Nat) (k : Int) : Bool := 0 ≤ k && k < (n : Int)
 
 /-- `make_edge_face_array` from the compressed rows of the face-edge table.
@@ -242,6 +255,9 @@ def facePairEvents : List (Option Int) → List (Int × Int)
   | [some l, some r] => [(l, r), (r, l)]
   | _ => []
 
+/-- every (face, neighbour) write of `make_face_face_array`, in order -/
+def adjEvents (ef : Table) : List (Int × Int) := ef.flatMap facePairEvents
+
 /-- rows `make_face_face_array` cannot process: no masked cell but not exactly two cells
 (`left, right = face_indexes` raises ValueError) -/
 def badEdgeFaceRow (row : List (Option Int)) : Bool :=
@@ -252,13 +268,19 @@ cell twice and skip the next; that is outside the model. -/
 def makeFaceFace (nfaces w : Nat) (ef : Table) : Except Err Table :=
   if ef.any badEdgeFaceRow then .error .value
   else
-    let evs := ef.flatMap facePairEvents
+    let evs := adjEvents ef
     if evs.any (fun ev => ev.1 = ev.2) then .error .unmodelled
     else if evs.any (fun ev => !inRange nfaces ev.1) then .error .index
     else
       let rows := accumulate nfaces (evs.map fun ev => (ev.1.toNat, ev.2))
       if rows.any (fun r => w < r.length) then .error .index
       else .ok (rows.map (pad w))
+
+/-- the unmasked entries of row `i` of a table (`[]` outside the table) -/
+def rowOf (t : Table) (i : Nat) : List Int :=
+  match t[i]? with
+  | some row => compress row
+  | none => []
 
 /-! ## the `*_array` properties: supplied table if valid, derived otherwise -/
 
